@@ -829,6 +829,33 @@ func verifAssume(cond bool) {}
 //@   props C08
 //@   modifies nothing
 //@   ensures [C08] @configuredcredential result != nil && istype(result, *KeyAuthentication) && result.(*KeyAuthentication).Key == b64text(key)
+// The client builder's transport choice: the factory installed by UseInProcess/UseTCP dials
+// exactly once per call, with the configured address and parameters, and hands on what the dial
+// returned - the transport it made or its error, nothing of its own (C17: every (re)connection of
+// a client is a connection of its own; C04/C16: the configured buffer size and TCP configuration
+// are the ones in force).
+//@ func (*ClientBuilder).UseInProcess :: (b, addr, bufferSize) (result)
+//@   props C04 C17
+//@   requires b != nil && b.config != nil && !sameobj(b.config, b)
+//@   modifies b.config.NewTransport
+//@   ensures [C04,C17] @installs result == b && b.config.NewTransport != nil
+//@ func (*ClientBuilder).UseInProcess$1 :: (ctx) (result0, result1)
+//@   props C04 C17
+//@   panics only-if bufferSize < 0
+//@   modifies nothing
+//@   ensures [C04,C17] @dialsasconfigured ncalls("DialInProcess") == 1 && argof("DialInProcess", 0) == addr && argof("DialInProcess", 1) == bufferSize
+//@   ensures [C04,C17] @handson result0 == resultof("DialInProcess", 0) && result1 == resultof("DialInProcess", 1)
+//@ func (*ClientBuilder).UseTCP :: (b, addr, config) (result)
+//@   props C04 C16
+//@   requires b != nil && b.config != nil && !sameobj(b.config, b)
+//@   modifies b.config.NewTransport
+//@   ensures [C04,C16] @installs result == b && b.config.NewTransport != nil
+//@ func (*ClientBuilder).UseTCP$1 :: (ctx) (result0, result1)
+//@   props C04 C16
+//@   requires ctx != nil && addr != nil && (config != nil ==> config.ReadLimit >= 0)
+//@   modifies nothing
+//@   ensures [C04,C16] @dialsasconfigured ncalls("DialTcp") == 1 && argof("DialTcp", 0) == ctx && argof("DialTcp", 1) == addr && argof("DialTcp", 2) == config
+//@   ensures [C04,C16] @handson result0 == resultof("DialTcp", 0) && result1 == resultof("DialTcp", 1)
 //@ func (*ClientBuilder).ChannelBufferSize :: (b, bufferSize) (result)
 //@   props C04
 //@   requires b != nil && b.config != nil && !sameobj(b.config, b)
